@@ -53,7 +53,7 @@ Theorem C09_reissued_ticket_is_fresh : forall H dsz uni c r hs,
   spec_reissue_ticket H dsz uni c r = Some hs ->
   exists ts u tk ud rt, identify_pre H dsz uni c r = ISome ts u tk ud /\ reissue_time c = Some rt
     /\ cmp_eval reissue_cmp (now2 r - 2 * ts) (2 * rt) = true
-    /\ remember H c r u (max_age c) (filter nonempty tk) = Some hs.
+    /\ remember H c (later r) u (max_age c) (filter nonempty tk) = Some hs.
 Proof. exact reissued_ticket_is_fresh. Qed.
 Print Assumptions C09_reissued_ticket_is_fresh.
 
@@ -256,3 +256,41 @@ Theorem C09_cookie_attributes_generated : forall H c r st u ma toks st' hs k,
   attrs_ok c r ma k = true /\ exists v, ck_value k = Some v.
 Proof. exact gen_cookie_attributes. Qed.
 Print Assumptions C09_cookie_attributes_generated.
+
+(* two helpers (different secret / algorithm / address binding / cookie name) consulted for ONE request, any
+   interleaving of their identify / remember / forget calls: a helper accepts only what carries ITS keyed digest.
+   History independence of acceptance -- no answer of one helper can be reused by the other. *)
+Theorem C09_two_helpers_accept_implies_digest : forall H dsz uni c0 r0 c1 r1 ops st,
+  (forall a x, forallb valid_scalar (H a x) = true) ->
+  (forall ck0, cookie r0 = Some ck0 -> forallb valid_scalar ck0 = true) ->
+  (forall ck0, cookie r1 = Some ck0 -> forallb valid_scalar ck0 = true) ->
+  Forall2 (fun (bo : bool * op) x => if fst bo then answer_ok H dsz uni c1 r1 x else answer_ok H dsz uni c0 r0 x)
+          ops (snd (run_ops2 H dsz uni c0 r0 c1 r1 st ops)).
+Proof. exact (fun H dsz uni c0 r0 c1 r1 ops st => two_helpers_accept_implies_digest H dsz uni c0 r0 c1 r1 ops st). Qed.
+Print Assumptions C09_two_helpers_accept_implies_digest.
+
+Theorem C09_two_helpers_accept_implies_digest_generated : forall H dsz uni c0 r0 c1 r1 ops st,
+  (forall a x, forallb valid_scalar (H a x) = true) ->
+  (forall ck0, cookie r0 = Some ck0 -> forallb valid_scalar ck0 = true) ->
+  (forall ck0, cookie r1 = Some ck0 -> forallb valid_scalar ck0 = true) ->
+  Forall2 (fun (bo : bool * op) x => if fst bo then answer_ok H dsz uni c1 r1 x else answer_ok H dsz uni c0 r0 x)
+          ops (snd (gen_run_ops2 H dsz uni c0 r0 c1 r1 st ops)).
+Proof. exact gen_two_helpers_accept_implies_digest. Qed.
+Print Assumptions C09_two_helpers_accept_implies_digest_generated.
+
+Theorem C09_run_ops2_single : forall H dsz uni c0 r0 c1 r1 ops st,
+  run_ops2 H dsz uni c0 r0 c1 r1 st (map (fun o => (false, o)) ops) = run_ops H dsz uni c0 r0 st ops.
+Proof. exact (fun H dsz uni c0 r0 c1 r1 ops st => run_ops2_single H dsz uni c0 r0 c1 r1 ops st). Qed.
+Print Assumptions C09_run_ops2_single.
+
+Theorem C09_generated_run2_is_model : forall H dsz uni c0 r0 c1 r1 ops st,
+  gen_run_ops2 H dsz uni c0 r0 c1 r1 st ops = run_ops2 H dsz uni c0 r0 c1 r1 st ops.
+Proof. exact gen_run_ops2_is_model. Qed.
+Print Assumptions C09_generated_run2_is_model.
+
+Theorem C09_oracle_complete2 : forall H H' dsz uni c0 r0 c1 r1 ops st,
+  agree_all H H' c0 (flat_map (fun bo : bool * op => if fst bo then [] else msgs_op H dsz uni c0 r0 (snd bo)) ops) ->
+  agree_all H H' c1 (flat_map (fun bo : bool * op => if fst bo then msgs_op H dsz uni c1 r1 (snd bo) else []) ops) ->
+  run_ops2 H dsz uni c0 r0 c1 r1 st ops = run_ops2 H' dsz uni c0 r0 c1 r1 st ops.
+Proof. exact (fun H H' dsz uni c0 r0 c1 r1 ops st => oracle_complete2 H H' dsz uni c0 r0 c1 r1 ops st). Qed.
+Print Assumptions C09_oracle_complete2.
